@@ -17,6 +17,7 @@ Record worker := {
   k_st : cstate;
   k_create : Z;                            (* create_time *)
   k_task : option (nat * list instr);      (* task being run and what is left of its body *)
+  k_tpool : nat;                           (* the pool whose try_run popped that task: its result goes there *)
   k_dead : bool                            (* the inner coroutine has returned *)
 }.
 
@@ -163,7 +164,7 @@ Definition try_grow (x : pw) (p : nat) : pw :=
     else
       let w := length (pw_workers x) in
       let x1 := {| pw_clock := pw_clock x; pw_ts := pw_ts x; pw_cn := pw_cn x;
-                   pw_workers := pw_workers x ++ [{| k_st := Ready; k_create := pw_clock x; k_task := None; k_dead := false |}];
+                   pw_workers := pw_workers x ++ [{| k_st := Ready; k_create := pw_clock x; k_task := None; k_tpool := p; k_dead := false |}];
                    pw_wpool := pw_wpool x ++ [p];
                    pw_tq := pw_tq x; pw_cq := pw_cq x; pw_tbody := pw_tbody x; pw_tprio := pw_tprio x;
                    pw_pools := pw_pools x; pw_cur := pw_cur x; pw_cancel_tasks := pw_cancel_tasks x;
@@ -187,7 +188,7 @@ Definition k_change (x : pw) (w : nat) (new : cstate) : pw * list ev :=
   match get_worker x w with
   | None => (x, [])
   | Some k =>
-      let x1 := upd_worker x w {| k_st := new; k_create := k_create k; k_task := k_task k; k_dead := k_dead k |} in
+      let x1 := upd_worker x w {| k_st := new; k_create := k_create k; k_task := k_task k; k_tpool := k_tpool k; k_dead := k_dead k |} in
       (creator x1 new, [EL 0 w (CbChanged new) (k_st k)])
   end.
 
@@ -197,8 +198,7 @@ Definition notify (x : pw) (p : nat) (t : nat) : pw :=
 
 (** what [try_run] does once a task produced [r] *)
 Inductive fin := FinOk (x : pw) | FinPanic (x : pw).
-Definition finish_task (x : pw) (t : nat) (r : tres) : fin :=
-  let p := pw_cur x in
+Definition finish_task (x : pw) (p : nat) (t : nat) (r : tres) : fin :=
   let x := if Nat.eqb (nth t (pw_tpool x) p) p then x else add_defect x defect_result_elsewhere in
   let x := set_globals x (pw_cancel_tasks x) (pw_cancel_cos x) (assoc_del t (pw_running_tasks x)) in
   let q := get_pool x p in
@@ -228,15 +228,15 @@ Fixpoint wloop (fuel : nat) (x : pw) (w : nat) (acc : list ev) : pw * list ev * 
           match k_task k with
           | Some (t, []) =>
               let acc := acc ++ [EB t (BRet 0)] in
-              let x := upd_worker x w {| k_st := k_st k; k_create := k_create k; k_task := None; k_dead := k_dead k |} in
-              match finish_task x t (TOk 0) with
-              | FinOk x' => wloop f (upd_pool x' p (p_with_popfail 0)) w acc
+              let x := upd_worker x w {| k_st := k_st k; k_create := k_create k; k_task := None; k_tpool := k_tpool k; k_dead := k_dead k |} in
+              match finish_task x (k_tpool k) t (TOk 0) with
+              | FinOk x' => wloop f (upd_pool x' (k_tpool k) (p_with_popfail 0)) w acc
               | FinPanic x' => (x', acc, WPanic POther)
               end
           | Some (t, ins :: rest) =>
               let setk (x : pw) (tk : option (nat * list instr)) :=
                 match get_worker x w with
-                | Some k' => upd_worker x w {| k_st := k_st k'; k_create := k_create k'; k_task := tk; k_dead := k_dead k' |}
+                | Some k' => upd_worker x w {| k_st := k_st k'; k_create := k_create k'; k_task := tk; k_tpool := k_tpool k'; k_dead := k_dead k' |}
                 | None => x
                 end in
               let x0 := setk x (Some (t, rest)) in
@@ -265,19 +265,19 @@ Fixpoint wloop (fuel : nat) (x : pw) (w : nat) (acc : list ev) : pw * list ev * 
               | ILog n => wloop f x0 w (acc ++ [EB t (BLog n)])
               | IReturn v =>
                   let acc := acc ++ [EB t (BRet v)] in
-                  match finish_task (setk x None) t (TOk v) with
-                  | FinOk x' => wloop f (upd_pool x' p (p_with_popfail 0)) w acc
+                  match finish_task (setk x None) (k_tpool k) t (TOk v) with
+                  | FinOk x' => wloop f (upd_pool x' (k_tpool k) (p_with_popfail 0)) w acc
                   | FinPanic x' => (x', acc, WPanic POther)
                   end
               | IPanic pk =>
                   let acc := acc ++ [EB t (BPanic pk)] in
-                  match finish_task (setk x None) t (TErr (task_msg pk)) with
-                  | FinOk x' => wloop f (upd_pool x' p (p_with_popfail 0)) w acc
+                  match finish_task (setk x None) (k_tpool k) t (TErr (task_msg pk)) with
+                  | FinOk x' => wloop f (upd_pool x' (k_tpool k) (p_with_popfail 0)) w acc
                   | FinPanic x' => (x', acc, WPanic POther)
                   end
               | IUnreachable =>
-                  match finish_task (setk x None) t (TErr (task_msg PUnreachable)) with
-                  | FinOk x' => wloop f (upd_pool x' p (p_with_popfail 0)) w acc
+                  match finish_task (setk x None) (k_tpool k) t (TErr (task_msg PUnreachable)) with
+                  | FinOk x' => wloop f (upd_pool x' (k_tpool k) (p_with_popfail 0)) w acc
                   | FinPanic x' => (x', acc, WPanic POther)
                   end
               end
@@ -301,7 +301,7 @@ Fixpoint wloop (fuel : nat) (x : pw) (w : nat) (acc : list ev) : pw * list ev * 
                     let x2 := set_globals x1 (pw_cancel_tasks x1) (pw_cancel_cos x1)
                                           (assoc_del t (pw_running_tasks x1) ++ [(t, w)]) in
                     let x3 := upd_worker x2 w {| k_st := k_st k; k_create := k_create k;
-                                                 k_task := Some (t, nth t (pw_tbody x2) []); k_dead := k_dead k |} in
+                                                 k_task := Some (t, nth t (pw_tbody x2) []); k_tpool := p; k_dead := k_dead k |} in
                     wloop f x3 w (acc ++ [EB t (BStart (Z.of_nat w))])
               | (q', _) =>
                   let x1 := set_tq x q' in
@@ -343,7 +343,7 @@ Definition k_resume (x : pw) (w : nat) : pw * res * list ev :=
                 let st2 := match get_worker x2 w with Some k2 => k_st k2 | None => Ready end in
                 let dead (x : pw) := match get_worker x w with
                                      | Some k' => upd_worker x w {| k_st := k_st k'; k_create := k_create k';
-                                                                   k_task := k_task k'; k_dead := true |}
+                                                                   k_task := k_task k'; k_tpool := k_tpool k'; k_dead := true |}
                                      | None => x end in
                 match out with
                 | WYield =>
